@@ -141,6 +141,7 @@ type c01Ledger struct {
 	exempt                       bool
 	maxSteps                     int
 	lastSteps                    float64
+	rainOf                       func(zeit int) (float64, bool) // rain (cm) of the weather record written for that day
 }
 
 func (l *c01Ledger) probe() *hermes.VerifProbe {
@@ -151,6 +152,21 @@ func (l *c01Ledger) probe() *hermes.VerifProbe {
 			l.sick0, l.caps0, l.drai0 = g.SICKER, g.CAPSUM, g.DRAISUM
 			l.dayNontrivial = false
 			l.exempt = zeit <= l.measDay
+		},
+		AfterEvatra: func(g *hermes.GlobalVarsMain, zeit int, w *hermes.WaterSharedVars) {
+			// water entering through the surface = rain of that day's record + the irrigation the model reports - actual evaporation
+			if l.rainOf == nil {
+				return
+			}
+			rain, ok := l.rainOf(zeit)
+			if !ok {
+				return
+			}
+			l.c.Eval(1)
+			want := rain + g.EffectiveIRRIG - g.ETA
+			if math.Abs(g.FLUSS0-want) > relTol(rain, g.EffectiveIRRIG, g.ETA) {
+				l.c.Violate("surface-flux", fmt.Sprintf("%s day %d: flux through the surface %.12g cm, but rain %.12g + irrigation %.12g - actual evaporation %.12g = %.12g", l.label, zeit, g.FLUSS0, rain, g.EffectiveIRRIG, g.ETA, want), nil)
+			}
 		},
 		SubStep: func(g *hermes.GlobalVarsMain, zeit, subd int, steps, wdt float64, w *hermes.WaterSharedVars, n *hermes.NitroSharedVars) {
 			N := g.N
@@ -273,6 +289,9 @@ func c01Run(raw json.RawMessage, c *mc.Ctx) {
 	p := e1Project(sp.Base, ndays)
 	if sp.Irr {
 		p.Irr = []proj.Irr{{Date: isoAdd(p.Rotation[0].Harvest, 2+sp.Base.WarmUp), MM: 30, NConc: 10}}
+		if sp.Base.DrainDep > 0 || sp.Base.GW < 99 { // half of the irrigated scenarios: two events on one day and one on the next
+			p.Irr = append(p.Irr, proj.Irr{Date: isoAdd(p.Rotation[0].Harvest, 2+sp.Base.WarmUp), MM: 20, NConc: 0}, proj.Irr{Date: isoAdd(p.Rotation[0].Harvest, 3+sp.Base.WarmUp), MM: 10, NConc: 0})
+		}
 	}
 	p.Weather = e1Weather(sp.Base.WarmUp, ws[0], p.VerdColumn)
 	p.Write(root)
@@ -281,6 +300,14 @@ func c01Run(raw json.RawMessage, c *mc.Ctx) {
 		p.Weather = e1Weather(sp.Base.WarmUp, w, p.VerdColumn)
 		writeWeather(root, p)
 		l := &c01Ledger{c: c, measDay: start + 1, label: fmt.Sprintf("word=%v", w)}
+		weather := p.Weather
+		l.rainOf = func(zeit int) (float64, bool) { // the series starts 3 days before the first simulated day
+			i := zeit - start + 3
+			if i < 0 || i >= len(weather) {
+				return 0, false
+			}
+			return weather[i].Precip / 10, true
+		}
 		nv := len(c.Viol)
 		res := proj.Run(root, p.Args(root), l.probe())
 		c.Trace(1)
